@@ -1,6 +1,7 @@
 import MorfuseModel.Emit.Model
 import MorfuseModel.Emit.Master
 import MorfuseModel.Emit.MasterLemmas
+import MorfuseModel.Emit.Fixup
 /-!
 # C01 — compilation is total: any source text is accepted or cleanly rejected
 
@@ -31,6 +32,54 @@ theorem compile_total (dev : Bool) (root : Node) :
 set_option maxRecDepth 100000 in
 example : (match emit (.list (.cons (.while_ (.int 1) (.list (.cons .brk .nil)) .none) .nil)) (St.init true) with
     | .ok s' => s'.info.progLength == 18 | .error _ => false) = true := by decide
+
+/-- **The break / continue fix-up tables are never indexed outside their capacity.**
+(`apucBreakJumpLocations[BREAK_JUMP_LOCATION_COUNT]`, `apucContinueJumpLocations[CONTINUE_JUMP_LOCATION_COUNT]`; the
+capacities are regenerated from `Compiler.h` into `Gen/EmitConsts.lean`.)  For **every** parse tree and every emitter
+state whose two counters are within the tables — in particular the initial state of either pass and of the
+counting sub-emitters of `try` / `switch` —
+1. the emitter (either manager) never reads or writes `apucBreakJumpLocations[i]` / `apucContinueJumpLocations[i]`
+   with `i ≥` capacity (the model's `Ub.breakIndex` / `Ub.continueIndex` outcomes), and leaves both counters
+   within the tables;
+2. the same for a whole compile (counting pass, `Preallocate`, program pass);
+3. `AddBreakJumpLocation` / `AddContinueJumpLocation` store only below the capacity, and at capacity raise the
+   modelled `BreakJumpLocOverflow` / `ContinueJumpLocOverflow` instead of storing. -/
+theorem C01_fixup_tables_bounded :
+    (∀ (n : Node) (s : St), s.nBrk ≤ Gen.EmitConsts.breakMax → s.nCont ≤ Gen.EmitConsts.continueMax →
+      match emit n s with
+      | .ok s' => s'.nBrk ≤ Gen.EmitConsts.breakMax ∧ s'.nCont ≤ Gen.EmitConsts.continueMax
+      | .error e => e ≠ .ub .breakIndex ∧ e ≠ .ub .continueIndex)
+    ∧ (∀ (dev : Bool) (root : Node),
+        compile dev root ≠ .error (.ub .breakIndex) ∧ compile dev root ≠ .error (.ub .continueIndex))
+    ∧ (∀ (s : St) (p : Nat),
+        (s.nBrk < Gen.EmitConsts.breakMax → ∃ s', s.addBreak p = .ok s' ∧ s'.nBrk = s.nBrk + 1) ∧
+        (¬ s.nBrk < Gen.EmitConsts.breakMax → s.addBreak p = .error .breakOverflow) ∧
+        (s.nCont < Gen.EmitConsts.continueMax → ∃ s', s.addContinue p = .ok s' ∧ s'.nCont = s.nCont + 1) ∧
+        (¬ s.nCont < Gen.EmitConsts.continueMax → s.addContinue p = .error .continueOverflow)) := by
+  refine ⟨?_, ?_, ?_⟩
+  · intro n s hb hc
+    have h := (pb_all n).e s ⟨hb, hc⟩
+    cases hr : emit n s with
+    | ok s' => rw [hr] at h; exact h
+    | error e => rw [hr] at h; exact h
+  · intro dev root
+    have h := compile_EB dev root
+    constructor
+    · intro hc; rw [hc] at h; exact h.1 rfl
+    · intro hc; rw [hc] at h; exact h.2 rfl
+  · intro s p
+    refine ⟨?_, ?_, ?_, ?_⟩
+    · intro h; refine ⟨{ s with brk := s.brk.set s.nBrk p, nBrk := s.nBrk + 1 }, by simp [St.addBreak, h], rfl⟩
+    · intro h; simp [St.addBreak, h]
+    · intro h; refine ⟨{ s with cont := s.cont.set s.nCont p, nCont := s.nCont + 1 }, by simp [St.addContinue, h], rfl⟩
+    · intro h; simp [St.addContinue, h]
+
+/-- non-vacuity: a full break table rejects the next `break` with the modelled error; a table with one free slot
+takes it -/
+example : ({ St.init true with nBrk := Gen.EmitConsts.breakMax } : St).addBreak 7 = .error .breakOverflow := by
+  simp [St.addBreak, Gen.EmitConsts.breakMax]
+example : (({ St.init true with nBrk := 99 } : St).addBreak 7).toOption.map (·.nBrk) = some 100 := by
+  simp [St.addBreak, Gen.EmitConsts.breakMax, Except.toOption]
 
 /-- **A rejected load is clean** (`GetProgramScript` + `GetProgramScriptInternal` + `Load`).  Whenever the
 call really loads (`name` not registered, or `recompile`) and the load fails — the parser rejects the text or
